@@ -19,6 +19,19 @@ pub struct GenericLightGraph<TI: TermIndex> {
     triples: BTreeSet<[TI::Index; 3]>,
 }
 
+#[cfg(feature = "verif_hooks")]
+impl<TI: TermIndex> GenericLightGraph<TI> {
+    /// Verification hook: the term index of this graph.
+    pub fn verif_terms(&self) -> &TI {
+        &self.terms
+    }
+    /// Verification hook: the raw index sets, by name.
+    pub fn verif_indexes(&self) -> Vec<(&'static str, Vec<Vec<usize>>)> {
+        let dump = |s: &BTreeSet<[TI::Index; 3]>| s.iter().map(|r| r.iter().map(|i| i.into_usize()).collect()).collect();
+        vec![("spo", dump(&self.triples))]
+    }
+}
+
 impl<TI: TermIndex + Default> GenericLightGraph<TI> {
     /// Construct an empty graph
     pub fn new() -> Self {
@@ -153,6 +166,19 @@ pub struct GenericFastGraph<TI: TermIndex> {
     spo: BTreeSet<[TI::Index; 3]>,
     pos: BTreeSet<[TI::Index; 3]>,
     osp: BTreeSet<[TI::Index; 3]>,
+}
+
+#[cfg(feature = "verif_hooks")]
+impl<TI: TermIndex> GenericFastGraph<TI> {
+    /// Verification hook: the term index of this graph.
+    pub fn verif_terms(&self) -> &TI {
+        &self.terms
+    }
+    /// Verification hook: the raw index sets, by name.
+    pub fn verif_indexes(&self) -> Vec<(&'static str, Vec<Vec<usize>>)> {
+        let dump = |s: &BTreeSet<[TI::Index; 3]>| s.iter().map(|r| r.iter().map(|i| i.into_usize()).collect()).collect();
+        vec![("spo", dump(&self.spo)), ("pos", dump(&self.pos)), ("osp", dump(&self.osp))]
+    }
 }
 
 impl<TI: TermIndex + Default> GenericFastGraph<TI> {
